@@ -129,10 +129,16 @@ func (vm *VirtualMachine) start(ctx context.Context) error {
 	// Halt execution when the context is cancelled
 	vm.halt = 0
 	if doneChan := ctx.Done(); doneChan != nil {
+		verifGo(0)
 		go func() {
+			verifGo(1)
+			defer verifGo(2)
+			verifPoint(10, doneChan, vm)
 			<-doneChan
+			verifPoint(11, doneChan, vm)
 			atomic.StoreInt32(&vm.halt, 1)
 		}()
+		verifGo(3)
 	}
 	return nil
 }
